@@ -5,6 +5,7 @@ import KojenVerif.Model.OutStage
 import KojenVerif.Model.Conn
 import KojenVerif.Model.Wire
 import KojenVerif.Model.Dispatch
+import KojenVerif.Model.EmitPy
 /-
   Line-protocol driver: one JSON object per input line, one JSON object per output line.
   Run with `lake env lean --run Driver/Main.lean`.  The harness pipes the same inputs to the
@@ -111,6 +112,31 @@ def parseFlds (j : Json) : Except String (List Wire.Fld) := do
   let a ← j.getArr?
   a.toList.mapM parseFld
 
+def optStr (j : Json) : Except String (Option Str) :=
+  match j with
+  | Json.null => pure none
+  | _ => do pure (some (toStr (← j.getStr?)))
+
+def parseRows (j : Json) : Except String (List Table.Row) := do
+  let a ← j.getArr?
+  a.toList.mapM (fun r => do
+    let f ← r.getArr?
+    match f.toList with
+    | [s, e, n, ac, g] => do
+      pure { src := toStr (← s.getStr?), ev := toStr (← e.getStr?), next := ← optStr n, action := ← optStr ac, guard := ← optStr g }
+    | _ => throw "row: [src, ev, next, action, guard]")
+
+def jOpt : Option Str → Json
+  | some s => jStr s
+  | none => Json.null
+
+def jCb : Table.Cb → Json
+  | .guard g => Json.arr #[Json.str "guard", jStr g]
+  | .exit s => Json.arr #[Json.str "exit", jStr s]
+  | .action a e => Json.arr #[Json.str "action", jStr a, jStr e]
+  | .entry s => Json.arr #[Json.str "entry", jStr s]
+  | .noTransition => Json.arr #[Json.str "notransition"]
+
 def handle (j : Json) : Except String Json := do
   let cmd ← (← j.getObjVal? "cmd").getStr?
   match cmd with
@@ -212,6 +238,44 @@ def handle (j : Json) : Except String Json := do
       | .handler i => Json.num (JsonNumber.fromNat i)
       | .notHandled => Json.num (JsonNumber.fromInt (-1))
     pure (Json.mkObj [("targets", Json.arr (ml.map (fun m => enc (Dispatch.dispatch il m))).toArray)])
+  | "emitpy" => do
+    let t ← parseRows (← j.getObjVal? "tt")
+    let p := EmitPy.emit t
+    let jStmt : EmitPy.Stmt → Json
+      | .call cb => jCb cb
+      | .assign s => Json.arr #[Json.str "assign", jStr s]
+      | .ret => Json.arr #[Json.str "return"]
+    let jBlock (b : EmitPy.Block) : Json := Json.mkObj [("guard", jOpt b.guard), ("body", Json.arr (b.body.map jStmt).toArray)]
+    let jEv (e : EmitPy.EvBlock) : Json := Json.mkObj [("ev", jStr e.ev), ("blocks", Json.arr (e.blocks.map jBlock).toArray)]
+    let jFn (f : EmitPy.StateFn) : Json := Json.mkObj [("state", jStr f.state), ("evs", Json.arr (f.evs.map jEv).toArray)]
+    let lines := (p.fns.map EmitPy.fnLines).flatten
+    pure (Json.mkObj [("fns", Json.arr (p.fns.map jFn).toArray), ("init", jOpt p.init),
+                      ("indent_ok", Json.bool (p.fns.all (fun f => EmitPy.indentOK [4, 0] false (EmitPy.fnLines f)))),
+                      ("nlines", Json.num (JsonNumber.fromNat lines.length)),
+                      ("states", jStrs (Table.states t)), ("events", jStrs (Table.events t)),
+                      ("actions", jStrs (Table.actions t)), ("guards", jStrs (Table.guards t)),
+                      ("sigs", Json.arr ((Table.actionSigs t).map (fun p => Json.arr #[jStr p.1, jStr p.2])).toArray)])
+  | "runref" => do
+    let t ← parseRows (← j.getObjVal? "tt")
+    let silent ← getBool j "silent"
+    let evs ← (← j.getObjVal? "events").getArr?
+    let start ← getStr j "start"
+    let mut cur := start
+    let mut out : Array Json := #[]
+    for ev in evs.toList do
+      let pr ← ev.getArr?
+      match pr.toList with
+      | [e, trueGuards] => do
+        let tg ← asStrs trueGuards
+        let es ← asStr e
+        let r := if silent then Table.stepRefSilent t cur es (fun g => tg.contains g)
+                 else Table.stepRef t cur es (fun g => tg.contains g)
+        let rp := EmitPy.process (EmitPy.emit t) cur es (fun g => tg.contains g)
+        out := out.push (Json.mkObj [("state", jStr r.1), ("trace", Json.arr (r.2.map jCb).toArray),
+                                     ("emit_agrees", Json.bool (silent || (rp.1 == r.1 && rp.2 == r.2)))])
+        cur := r.1
+      | _ => throw "event: [name, [true guards]]"
+    pure (Json.mkObj [("steps", Json.arr out)])
   | "split" => do
     let s ← getStr j "s"
     pure (Json.mkObj [("lines", jStrs (splitLines s))])
